@@ -12,10 +12,13 @@ from ..util import (has_call, find_calls, nodes_where, escape_path, node_ast_for
                     assigned_value, const_str, unparse, kw, arg_or_kw, enclosing_stmt, control_ancestors, call_tail)
 from .. import mutate as M
 
+TECHNIQUE = "static analysis: CFG must-pass-through (write -> flush/close before next write or exit), control-dependence extraction (yield guarded by 'id not in restored'), value provenance of the restored Result, who-may-memoise rule on the restore call chain"
+
 EXPLANATION = ("Static rules over the transaction-log writer (DiskSink), the task generator (MakeTasks), "
                "Experiment.run and the restore path: write->flush on every path, append mode + one record per "
                "open/close, T4 payload materialised before yield, every task kind guarded by its restored-id set, "
                "preamble suppressed on restore, raw log lines decoded under error handling.")
+EXPLANATION += ' R7: nothing on the restore chain is memoised; a log without an experiment row is not a mismatch and gets one appended.'
 
 SINKS = "coba/pipes/sinks.py"
 SOURCES = "coba/pipes/sources.py"
